@@ -30,7 +30,10 @@ TRUSTED_BASE_COMMON = [
     "translator tools/translate.py + tools/cexpr.py (regex anchors + expression grammar) -- its output is also "
     "executed by the driver against the implementation",
     "correspondence: C++ harness under /verif/harness, case-file protocol, compiled Lean driver pmdriver",
-    "g++ 12 / libstdc++ / Eigen 3.4 / Boost 1.83 / OpenMPI as the execution platform of the implementation",
+    "g++ 12 / libstdc++ / Eigen 3.4 / Boost 1.83 / OpenMPI as the execution platform of the implementation; every MPI "
+    "launch uses a private OMPI_MCA_orte_tmpdir_base, and a launch whose Open MPI runtime fails to start (orte_init / "
+    "orte_session_dir, before main's first statement after MPI_Init) is repeated at most 3 times and counted in "
+    "notes.mpi_runtime_start_failures_relaunched",
 ]
 
 
@@ -228,6 +231,10 @@ def main():
             out_lines.append(line)
 
     # ---- evidence -------------------------------------------------------
+    # launches of MPI programs by this check, and how many had to be repeated because the Open MPI runtime itself
+    # (not the harness, not the library) failed to start -- see pmlib.mpi_runtime_init_failed
+    ctx.notes["mpi_launches"] = pmlib.MPI_STATS["launches"]
+    ctx.notes["mpi_runtime_start_failures_relaunched"] = pmlib.MPI_STATS["runtime_init_failures"]
     cov = dict(
         obligations=max(obligations, 1), discharged=discharged,
         checker_cmd="cd lean && lake build %s pmdriver && lake env lean .lake/audit/%s.lean  (#print axioms)%s" % (
